@@ -46,7 +46,7 @@ def _common_site(s1, s2):
 class C19(Machine):
     name = "c19"
     property_id = "C19"
-    runs = {"quick": 40000, "thorough": 1500000}
+    runs = {"quick": 40000, "thorough": 800000}
     batch = 100
     rule = ("seeded histories (3-30 steps) of concatenate/extend/add/replace/update/remove/discard/keep/fill/pack/subset/export "
             "operations on 1-4 matrices over a shared namespace (partially overlapping taxon sets, repeated labels and objects) plus "
@@ -82,7 +82,7 @@ class C19(Machine):
                "add_sequences", "replace_sequences", "update_sequences", "remove_sequences", "discard_sequences", "keep_sequences",
                "fill", "fill_taxa", "pack", "new_subset", "export_subset", "export_indices", "foreign", "self_extend"]
         steps = []
-        for _ in range(rng.randint(3, 30)):
+        for _ in range(rng.randint(3, 70 if tier == "thorough" else 30)):
             op = rng.choice(ops)
             steps.append({"op": op, "a": rng.randrange(100), "b": rng.randrange(100),
                           "list": [rng.randrange(100) for _ in range(rng.randint(1, 4))],
